@@ -20,7 +20,8 @@ import pandas as pd
 
 from common import rq, enc_list, dec_list
 
-REQUIRED = ['hist_length', 'sample_individuals', 'no_record_after_stop', 'record_01', 'last_record_terminal',
+REQUIRED = ['hist_length', 'sample_individuals', 'no_record_after_stop', 'record_unc01', 'record_01',
+            'outcome_sign_of_untouched', 'last_record_terminal',
             'at_most_one_event', 'event_is_last', 'times_consecutive', 'within_tmax', 'censored_outcome_zero',
             'plan_all', 'plan_none', 'plan_natural', 'plan_custom', 'plan_custom_on_record',
             'lag_first_step', 'lag_prev_step', 'lag_prev_record', 'lowmem_one', 'lowmem_eq_last_of_full',
@@ -31,7 +32,7 @@ RULE = ('person-period data sets generated here (id, t_in/t_out, binary time-var
         'cell of plan {all, none, natural, custom rule from the Cond grammar} x covariate models {none, L, L+W '
         'continuous, L+L2 with labels against call order} x censoring model {no, yes} x lags {none, first order, '
         'second-order chain in both listing orders, optionally a lag of the running count kept by out_recode} is run with random sample size 1..200, t_max 1..6 or None, recode strings from the '
-        'Assign grammar, np.random draws or pinned draws, and both memory modes with the same seed; 30% of the cases fit the reused object with another horizon/plan/sample first, 20% are compared with a fresh object; ids are ints or strings, columns int64 / int8 / int32, t_max an int / np.int64 / integral float. distinct = '
+        'Assign grammar, np.random draws or pinned draws, and both memory modes with the same seed; 30% of the cases fit the reused object with another horizon/plan/sample first, 20% are compared with a fresh object; late entry (first observed record opening at time 1 or 2) for 40% of the individuals, an unused NaN column, integer or fractional weights, positional or keyword construction, out_recode programs that rewrite the outcome column (no event while L = 0 / event forced by L2 = 1); ids are ints or strings, columns int64 / int8 / int32, t_max an int / np.int64 / integral float. distinct = '
         'distinct (cell, data seed, np seed, sample, t_max); non-trivial = at least one history stops before t_max '
         'and at least one reaches it')
 ASSUMPTIONS = ['statsmodels results.predict(frame) returns one probability in [0,1] per row of the frame (measured '
@@ -148,7 +149,8 @@ def gen_data(seed, n, T, weights):
         W0 = float(np.round(rng.normal(), 3))
         w = int(rng.integers(1, 4))
         cumA, cumL, cumA_l1 = 0, 0, 0
-        for t in range(T):
+        t0 = int(rng.choice([0, 0, 0, 1, 2]))      # late entry: the first observed record need not open at time 0
+        for t in range(t0, T):
             L = int(rng.uniform() < 0.35 + 0.25 * L_l1 + 0.1 * A_l1 + 0.1 * b[0])
             L2 = int(rng.uniform() < 0.4 + 0.2 * L + 0.1 * b[1])
             W = float(np.round(0.5 * L + 0.3 * W0 + rng.normal(), 3))
@@ -164,6 +166,10 @@ def gen_data(seed, n, T, weights):
             cumA += A
             cumL += L
     df = pd.DataFrame(rows)
+    if weights == 'frac':                      # non-integer, non-mean-one weights
+        df['wt'] = df['wt'] * 0.37 + 0.21
+    if int(seed) % 2 == 1:                     # an unused column with missing values in the caller's frame
+        df['junk'] = np.where(np.arange(len(df)) % 3 == 0, np.nan, 1.5)
     # container / dtype variance (by data seed): string ids, fixed-width integer columns
     if int(seed) % 3 == 1:
         df['id'] = ['p%04d' % v for v in df['id']]
@@ -199,14 +205,17 @@ def fitted(spec, fresh=False):
     does not touch the cache)"""
     from zepid.causal.gformula import MonteCarloGFormula
     key = (spec['data_seed'], spec['n'], spec['T'], spec['weights'], spec['covs'], spec['cens'],
-           repr(spec.get('covrec')))
+           repr(spec.get('covrec')), bool(spec.get('positional')))
     if key in _FITTED and not fresh:
         return _FITTED[key]
     if len(_FITTED) > 40:
         _FITTED.clear()
     df = gen_data(spec['data_seed'], spec['n'], spec['T'], spec['weights'])
-    gf = MonteCarloGFormula(df, idvar='id', exposure='A', outcome='Y', time_in='t_in', time_out='t_out',
-                            weights='wt' if spec['weights'] else None)
+    if spec.get('positional'):
+        gf = MonteCarloGFormula(df, 'id', 'A', 'Y', 't_in', 't_out', 'wt' if spec['weights'] else None)
+    else:
+        gf = MonteCarloGFormula(df, idvar='id', exposure='A', outcome='Y', time_out='t_out', time_in='t_in',
+                                weights='wt' if spec['weights'] else None)
     gf.exposure_model('L + A_l1 + t_in + cumA_l1', print_results=False)
     gf.outcome_model('A + L + A_l1 + t_in', print_results=False)
     covrec = spec.get('covrec') or {}
@@ -540,6 +549,25 @@ def run_case(spec, drv):
         # without a censoring model a history can only end with an event or at t_max (no hook needed)
         bad = [u for u, gdf in groups.items() if len(gdf) < tmax and gdf['Y'].iloc[-1] == 0]
         D(not bad, 'no censoring model: every history ends with an event or at t_max (uids %s)' % bad[:5])
+    endcache = {}
+
+    def end_of_interval(calls, si):
+        """the row at the end of an interval (after out_recode, before the lag update), rebuilt from the frame
+        of the interval's last prediction, the draws and the out_recode program"""
+        key = (id(calls), si)
+        if key not in endcache:
+            lastk = 'cens' if 'cens' in kinds else 'out'
+            frame, _, cols = calls[lastk]
+            r = dict(zip(cols, frame.tolist()))
+            yd = float(calls['out'][1])
+            ud = float(calls['cens'][1]) if 'cens' in kinds else r.get('uncensored', 1.0)
+            r['Y'] = yd if ud == 1 else 0.0
+            r['t_out'] = float(si + 1)
+            r['uncensored'] = 0.0 if si == tmax - 1 else ud
+            for dst, e in (spec.get('outrec') or []):
+                r[dst] = e_val(e, r)
+            endcache[key] = r
+        return endcache[key]
     # ---- stopping against the captured draws: no record after an event or after censoring, nobody lost
     ok_stop = ok_lost = ok_cz = ok_nat = ok_rule = ok_cov = True
     for u, gdf in (groups.items() if hooked else ()):
@@ -553,18 +581,20 @@ def run_case(spec, drv):
                 continue
             yd = calls['out'][1]
             ud = calls['cens'][1] if 'cens' in kinds else 1.0
-            stopped = (yd == 1 and ud == 1) or ud == 0
+            ey = end_of_interval(calls, s)['Y']      # the interval's outcome: drawn, zeroed if censored, out_recode
+            stopped = ey != 0 or ud == 0
             if s < m - 1 and stopped:
                 ok_stop = False                      # a record follows an event or censoring
-                note('stop', 'uid %d interval %d: drawn outcome %g, drawn uncensored %g, but %d more record(s) follow'
-                     % (u, s, yd, ud, m - 1 - s))
+                note('stop', 'uid %d interval %d: outcome %g (drawn %g), drawn uncensored %g, but %d more record(s) '
+                     'follow' % (u, s, ey, yd, ud, m - 1 - s))
             if s == m - 1 and not stopped and s != tmax - 1:
                 ok_lost = False                      # history ends for no reason
                 note('lost', 'uid %d ends after interval %d of %d without event or censoring' % (u, s, tmax))
             rec = gdf.iloc[s]
-            if rec['Y'] != (1 if (yd == 1 and ud == 1) else 0):
+            if rec['Y'] != ey:
                 ok_cz = False                        # censoring zeroes the outcome; otherwise the drawn outcome
-                note('cz', 'uid %d interval %d: Y=%g, drawn outcome %g, drawn uncensored %g' % (u, s, rec['Y'], yd, ud))
+                note('cz', 'uid %d interval %d: Y=%g, drawn outcome %g, drawn uncensored %g, after out_recode %g'
+                     % (u, s, rec['Y'], yd, ud, ey))
             if spec['plan'] == 'natural' and rec['A'] != calls['exp'][1]:
                 ok_nat = False
                 note('nat', 'uid %d interval %d: A=%g drawn %g' % (u, s, rec['A'], calls['exp'][1]))
@@ -585,7 +615,8 @@ def run_case(spec, drv):
     if hooked:
         D(ok_stop, 'no record after a drawn event or after drawn censoring', key='stop')
         D(ok_lost, 'every history ends with an event, with censoring or at t_max (nobody is lost)', key='lost')
-        D(ok_cz, 'outcome of a record = drawn outcome, zeroed when censored in that interval', key='cz')
+        D(ok_cz, 'outcome of a record = drawn outcome, zeroed when censored in that interval, then out_recode', key='cz')
+        D(bool(full['Y'].isin([0, 1]).all()), 'outcome column is 0/1 in every record (sign hypothesis of the low-memory theorems)')
         D(ok_cov, 'covariate columns of a record = the values drawn for that individual in that interval', key='cov')
     if spec['plan'] == 'all':
         D(bool((full['A'] == 1).all()) and bool((low['A'] == 1).all()), "plan 'all': exposure = 1 in every record")
@@ -610,25 +641,6 @@ def run_case(spec, drv):
         lags = [(k, v) for k, v in spec['lags']]
         base = df.sort_values(['id', 't_out']).groupby('id').head(1).set_index('id')
         ok_lag0 = ok_lag = True
-        endcache = {}
-
-        def end_of_interval(calls, si):
-            """the row at the end of an interval (after out_recode, before the lag update), rebuilt from the frame
-            of the interval's last prediction, the draws and the out_recode program"""
-            key = (id(calls), si)
-            if key not in endcache:
-                lastk = 'cens' if 'cens' in kinds else 'out'
-                frame, _, cols = calls[lastk]
-                r = dict(zip(cols, frame.tolist()))
-                yd = float(calls['out'][1])
-                ud = float(calls['cens'][1]) if 'cens' in kinds else r.get('uncensored', 1.0)
-                r['Y'] = yd if ud == 1 else 0.0
-                r['t_out'] = float(si + 1)
-                r['uncensored'] = 0.0 if si == tmax - 1 else ud
-                for dst, e in (spec.get('outrec') or []):
-                    r[dst] = e_val(e, r)
-                endcache[key] = r
-            return endcache[key]
         for u, gdf in groups.items():
             steps = per.get(u, {})
             bid = gdf['id'].iloc[0]
@@ -774,6 +786,11 @@ RECODES = [
     dict(inrec=[['t_sq', ['mul', ['var', 't_in'], ['var', 't_in']]]],
          outrec=[['cumA', ['add', ['var', 'cumA'], ['var', 'A']]], ['cumL', ['add', ['var', 'cumL'], ['var', 'L']]]]),
     dict(covrec={'L': [['cumL', ['add', ['var', 'cumL'], ['var', 'L']]]]}),
+    # out_recode rewrites the outcome (structural rules): no event while L = 0; an event forced by L2 = 1
+    dict(outrec=[['Y', ['mul', ['var', 'Y'], ['var', 'L']]]]),
+    dict(outrec=[['Y', ['add', ['var', 'Y'], ['mul', ['var', 'L2'], ['add', ['const', 1],
+                                                                       ['mul', ['const', -1], ['var', 'Y']]]]]],
+                 ['cumA', ['add', ['var', 'cumA'], ['var', 'A']]]]),
     # out_recode keeps a running count that is itself lagged (the documented use of out_recode)
     dict(outrec=CUM_OUTREC, lagx=[['cumA', 'cumA_l1']]),
     dict(inrec=[['t_sq', ['mul', ['var', 't_in'], ['var', 't_in']]]],
@@ -783,11 +800,13 @@ RECODES = [
 
 def random_spec(rng, plan, covs, cens, lagset, tier, i):
     spec = dict(data_seed=int(rng.integers(0, 6 if tier == 'quick' else 40)), n=int(rng.choice([150, 220])), T=4,
-                weights=bool(rng.uniform() < 0.25), covs=covs, cens=bool(cens), plan=plan,
+                weights=[False, False, False, True, 'frac'][int(rng.integers(0, 5))], covs=covs, cens=bool(cens), plan=plan,
                 lags=LAGSETS[lagset], lagset=lagset,
                 sample=int(rng.choice([1, int(rng.integers(2, 4)), int(rng.integers(4, 40)), int(rng.integers(40, 201))],
                                       p=[0.1, 0.1, 0.3, 0.5])),
-                tmax=[None, 1, 2, 3, 4, 5, 6][int(rng.integers(0, 7))], np_seed=int(rng.integers(0, 2 ** 31 - 1)),
+                tmax=[None, 1, 2, 3, 4, 5, 6][int(rng.integers(0, 7))],
+                np_seed=0 if rng.uniform() < 0.05 else int(rng.integers(0, 2 ** 31 - 1)),
+                positional=bool(rng.integers(0, 2)),
                 pin=int(rng.integers(0, 2 ** 31 - 1)) if rng.uniform() < 0.5 else None)
     rc = dict(RECODES[int(rng.integers(0, len(RECODES)))])
     if 'covrec' in rc and covs == 'none':
@@ -795,7 +814,7 @@ def random_spec(rng, plan, covs, cens, lagset, tier, i):
     if plan == 'custom':
         spec['rule'] = FIXED_RULES[i % len(FIXED_RULES)] if rng.uniform() < 0.4 else gen_rule(rng, covs)
         if 'cumA_l1' in c_reads(spec['rule']) and 'lagx' not in rc:
-            rc = dict(RECODES[5])          # a rule on the lagged count needs the count to be kept and lagged
+            rc = dict(RECODES[7])          # a rule on the lagged count needs the count to be kept and lagged
     lagx = rc.pop('lagx', None)
     spec.update(rc)
     if lagx:
@@ -873,7 +892,9 @@ def run(chk, drv, rng, tier):
         spec['tmax'] = 2.5
         with_frac = run_fit(fitted(spec)[0], spec, True, NAMES)[0]
         chk.extra['info_noninteger_tmax'] = ('t_max=2.5, low_memory=True returns %s of 50 individuals (t_max=2: %s); '
-                                             'documented type is int, not judged' % (
+                                             'documented type is int, not judged (the same happens with '
+                                             't_max=None when the data maximum of time_out is fractional: the '
+                                             'test `i == t_max - 1` never fires; `i == int(t_max) - 1` would)' % (
                                                  with_frac['uid_g_zepid'].nunique() if hasattr(with_frac, 'columns')
                                                  else repr(with_frac), with_int['uid_g_zepid'].nunique()))
     except Exception as e:  # noqa: BLE001
